@@ -342,10 +342,12 @@ struct Exec {
         if (!ids_are_positions) { r.count("probe.ru_remove_with_custom_ids"); if (r.kf("C06-KF2")) { obs.tainted = true; r.skipped(); return; } }
       }
       if constexpr (FAM == CHAIN && VINE) {
-        // known finding C06-KF7: chain remove_last after a vine swap leaves the position bookkeeping inconsistent for later insertions
-        if (had_swap) { r.count("probe.chain_remove_last_after_swap"); if (r.kf("C06-KF7")) { obs.tainted = true; r.skipped(); return; } }
+        if (had_swap) r.count("probe.chain_remove_last_after_swap");
       }
-      mp->remove_last();
+      // chain matrices without stored barcode keep no positions: after vine swaps remove_last cannot know the last cell (its
+      // documentation tells to call remove_maximal_cell with the identifier of the last cell and an empty hint instead)
+      if constexpr (FAM == CHAIN && VINE && !BARCODE && MAPC && IDX != 1) mp->remove_maximal_cell((unsigned)F.cells.back().id, std::vector<unsigned>{});
+      else mp->remove_last();
       int id = F.cells.back().id; F.cells.pop_back(); rowids.pop_back(); default_ids_ok = false; had_removal = true;
       (void)id;
       r.mutated = true; r.count("probe.remove_last");
@@ -395,25 +397,11 @@ struct Exec {
     for (auto& x : b) { if (x.birth == i) x.birth = i + 1; else if (x.birth == i + 1) x.birth = i; if (x.death == i) x.death = i + 1; else if (x.death == i + 1) x.death = i; }
     std::sort(b.begin(), b.end()); return b;
   }
-  bool vine_op(const sim::Op& op) {
-    if constexpr (!VINE) { (void)op; return false; }
+  // one transposition of the cells at positions i, i+1 through the public API, with all its checks; false if a fence skipped it
+  bool swap_at(int i, bool z1) {
+    if constexpr (!VINE) { (void)i; (void)z1; return false; }
     else {
       const int n = F.size();
-      if (op.name == "swap" || op.name == "swap_z1") {
-        std::vector<int> adm; for (int i = 0; i + 1 < n; ++i) if (!F.is_face(i, i + 1)) adm.push_back(i);
-        if (adm.empty()) { r.skipped(); return true; }
-        if constexpr (FAM == RU) {
-          // known finding C06-KF2: RU vine swaps mix row identifiers and positions (rows of U, pivot table) when they differ
-          bool ids_are_positions = true; for (int k = 0; k < n; ++k) if (rowids[k] != k) ids_are_positions = false;
-          if (!ids_are_positions) { r.count("probe.ru_swap_with_custom_ids"); if (r.kf("C06-KF2")) { obs.tainted = true; r.skipped(); return true; } }
-        }
-        if constexpr (FAM == RU && !BARCODE) {
-          // (fixed finding C06-KF12: without stored barcode the RU matrix threw from its pivot table during swaps)
-          r.count("probe.ru_map_nobarcode_swap");
-        }
-        int i = adm[op.arg(0) % adm.size()];
-        if (op.arg(1) % 3 == 0 && std::find(adm.begin(), adm.end(), last_swap) != adm.end()) i = last_swap;  // revisit the same pair
-        bool z1 = op.name == "swap_z1";
         auto before = F.barcode(); auto exch = exchanged(before, i);
         if constexpr (FAM == CHAIN && !BARCODE) {
           r.count("probe.chain_swap_with_comparators");
@@ -421,7 +409,7 @@ struct Exec {
           // pair by comparing the two identifiers; wrong as soon as earlier swaps put a pair's identifiers out of filtration order
           bool sign_by_id_wrong = false;
           for (auto& b : before) if (b.death >= 0 && (b.birth == i || b.birth == i + 1 || b.death == i || b.death == i + 1) && F.cells[b.death].id < F.cells[b.birth].id) sign_by_id_wrong = true;
-          if (sign_by_id_wrong) { r.count("probe.chain_nobarcode_pair_ids_out_of_order"); if (r.kf("C06-KF10")) { obs.tainted = true; r.skipped(); return true; } }
+          if (sign_by_id_wrong) { r.count("probe.chain_nobarcode_pair_ids_out_of_order"); if (r.kf("C06-KF10")) { obs.tainted = true; r.skipped(); return false; } }
         }
         // position-indexed API (returns whether the barcode changed) or index-pair API (returns the index of the cell now at the larger position)
         constexpr bool BY_POS = (FAM != CHAIN && IDX != 2) || (FAM == CHAIN && IDX == 1);
@@ -437,7 +425,7 @@ struct Exec {
               else if (ok) { bool ip = mp->is_zero_column(ci), jp = mp->is_zero_column(cj); if (!(ip && jp)) ok = !mp->is_zero_entry(ci, (unsigned)(i + 1), false); }
             }
           } else { if (ok) ok = !mp->is_zero_entry(cj, (unsigned)F.cells[i].id); }
-          if (!ok) { r.skipped(); return true; }
+          if (!ok) { r.skipped(); return false; }
           r.count("probe.swap_z_eq_1");
         }
         bool ret_bool = false; unsigned ret_idx = 0;
@@ -461,10 +449,32 @@ struct Exec {
           if constexpr (FAM == CHAIN && IDX == 0) cell_id = mp->get_pivot(ret_idx); else cell_id = ret_idx;
           if constexpr (FAM == RU && IDX == 2) {
             // known finding C06-KF1: with identifier indexing the RU overlay answers with the other cell when the barcode did not change
-            if ((int)cell_id == F.cells[i].id && after == before) { r.count("probe.ru_id_swap_return_other_cell"); if (r.kf("C06-KF1")) return true; }
+            if ((int)cell_id == F.cells[i].id && after == before) { r.count("probe.ru_id_swap_return_other_cell"); if (r.kf("C06-KF1")) return false; }
           }
           PH_REQ((int)cell_id == F.cells[i + 1].id, "truth", "vine_swap returned index " + std::to_string(ret_idx) + " (cell " + std::to_string(cell_id) + ") but the cell now at the larger position is " + std::to_string(F.cells[i + 1].id));
         }
+        return true;
+    }
+  }
+  bool vine_op(const sim::Op& op) {
+    if constexpr (!VINE) { (void)op; return false; }
+    else {
+      const int n = F.size();
+      if (op.name == "swap" || op.name == "swap_z1") {
+        std::vector<int> adm; for (int i = 0; i + 1 < n; ++i) if (!F.is_face(i, i + 1)) adm.push_back(i);
+        if (adm.empty()) { r.skipped(); return true; }
+        if constexpr (FAM == RU) {
+          // known finding C06-KF2: RU vine swaps mix row identifiers and positions (rows of U, pivot table) when they differ
+          bool ids_are_positions = true; for (int k = 0; k < n; ++k) if (rowids[k] != k) ids_are_positions = false;
+          if (!ids_are_positions) { r.count("probe.ru_swap_with_custom_ids"); if (r.kf("C06-KF2")) { obs.tainted = true; r.skipped(); return true; } }
+        }
+        if constexpr (FAM == RU && !BARCODE) {
+          // (fixed finding C06-KF12: without stored barcode the RU matrix threw from its pivot table during swaps)
+          r.count("probe.ru_map_nobarcode_swap");
+        }
+        int i = adm[op.arg(0) % adm.size()];
+        if (op.arg(1) % 3 == 0 && std::find(adm.begin(), adm.end(), last_swap) != adm.end()) i = last_swap;  // revisit the same pair
+        swap_at(i, op.name == "swap_z1");
         return true;
       }
       if (op.name == "rm_max") {
@@ -478,12 +488,23 @@ struct Exec {
         if (op.arg(1) % 2 == 0 && last_swap >= 0 && last_swap + 1 < n && !F.has_coface(last_swap + 1)) k = last_swap + 1;  // right after a swap involving it
         if constexpr (FAM == RU && VINE && !MAPC) { if (had_swap || k != n - 1) { r.count("probe.ru_vector_removal_after_swap"); } }
         if constexpr (FAM == RU && VINE && MAPC && !BARCODE) { if (had_swap || k != n - 1) { r.count("probe.ru_map_nobarcode_remove_maximal"); } }
-        if constexpr (FAM == CHAIN) { if (had_swap || k != n - 1) { r.count("probe.chain_remove_maximal_after_swap"); if (r.kf("C06-KF7")) { obs.tainted = true; r.skipped(); return true; } } }
+        if constexpr (FAM == CHAIN) { if (had_swap || k != n - 1) r.count("probe.chain_remove_maximal_after_swap"); }
         if constexpr (FAM == CHAIN && IDX == 1) {
           // known finding C06-KF4: the position overlay does not follow the column exchanges done while the cell is moved to the end
           if (k != n - 1) { r.count("probe.chain_pos_remove_inner"); if (r.kf("C06-KF4")) { obs.tainted = true; r.skipped(); return true; } }
         }
         if constexpr (FAM == RU && VINE && MAPC && ROWS) { r.count("probe.ru_map_rows_removal"); if (r.kf("C06-KF5")) { obs.tainted = true; r.skipped(); return true; } }
+        if constexpr (FAM == CHAIN && !BARCODE && MAPC) {
+          // Without stored barcode the matrix keeps no positions. The documented way (and what the zigzag module does) is to move the
+          // cell to the end with vine swaps and to remove it with remove_maximal_cell(id, {}): done here swap by swap, which also
+          // gives the comparators the position of the swap in progress.
+          for (int j = k; j + 1 < n; ++j) if (!swap_at(j, false)) return true;
+          if constexpr (IDX == 1) mp->remove_last(); else mp->remove_maximal_cell((unsigned)F.cells[n - 1].id, std::vector<unsigned>{});
+          F.cells.pop_back(); if (!rowids.empty()) rowids.pop_back();
+          default_ids_ok = false; had_removal = true; last_swap = -1; r.mutated = true;
+          r.count(k == n - 1 ? "probe.remove_maximal_last" : "probe.remove_maximal_inner");
+          return true;
+        }
         bool done = false;
         if (k != n - 1) had_swap = true;  // moving the cell to the end is done with vine swaps
         if constexpr (FAM != CHAIN) { mp->remove_maximal_cell(col_of_pos(k)); done = true; }
